@@ -208,6 +208,20 @@ class TChild:
     def is_false(self, e, extra_constraints=(), exact=None):
         return self._q("is_false", (e,), extra_constraints)
 
+    def merge(self, others, merge_conditions, common_ancestor=None):
+        # contract of ConstrainedFrontend.merge (proved under C15): one solver holding Or_i(cond_i and constraints_i)
+        ins = [self, *others]
+        parts = []
+        for s_, cond in zip(ins, merge_conditions):
+            t = cond.table
+            vs = set(cond.variables)
+            for x in s_.constraints:
+                t = t & x.table
+                vs |= set(x.variables)
+            parts.append(TC(vs, name="and", table=t, op="And"))
+        m = Or_c(*parts)
+        return True, TChild([m], set().union(*[p.variables for p in parts]))
+
     def unsat_core(self, extra_constraints=()):
         return ()
 
@@ -468,3 +482,107 @@ def ob_composite(method, tier="quick", part=None):
             return "raised"
         return method
     return explore(body, _opts(tier))
+
+
+def ob_composite_merge(tier="quick", shape=0):
+    """CompositeFrontend.merge (no common ancestor given) in isolation.  Three composites that are branches of one ancestor: per child of the
+    ancestor each of them either still holds the ancestor's child object (shared) or its own copy with one more constraint; the children may
+    be checked or not.  Merge conditions over arbitrary variables.  Post: the merged composite satisfies the representation invariant (in
+    particular R4: a child it takes over without knowing that it is satisfiable is marked unchecked; R3: it extends nothing it does not own)
+    and  Mod(merged) = OR_i (cond_i and Mod(input_i))."""
+    CF = load()["CompositeWithCache"]
+    proxies.set_iw(16)
+    shapes = [["a"], ["a", "b"], ["ab", "c"]]
+
+    def body(c):
+        TBase.n = 0
+        TChild.n = 0
+        TChild.all = []
+        TChild.faults = False
+        label = "CompositeFrontend.merge"
+        base = []
+        for vs in shapes[shape]:
+            k = TChild([TC(set(vs), name="k")], set(vs), frozen=True)           # the ancestor's child: owned by none of the three branches
+            checked = c.choose([True, True], f"ancestor-checked-{vs}") == 0
+            if checked:
+                c.assume(conj(k.constraints) != 0)
+            base.append((k, checked))
+        inputs = []
+        for j in range(3):
+            cf = CF(TChild())
+            cf.ghostG = []
+            for k, checked in base:
+                own = c.choose([True, True], f"input{j}-extends-{''.join(sorted(k.variables))}") == 1
+                if own:
+                    kk = TChild(list(k.constraints) + [TC(set(k.variables), name=f"x{j}")], set(k.variables), frozen=False)
+                    cf._owned_solvers.add(kk)
+                    cf._unchecked_solvers.add(kk)
+                else:
+                    kk = k
+                    if not checked:
+                        cf._unchecked_solvers.add(kk)
+                for v in kk.variables:
+                    cf._solvers[v] = kk
+                cf.ghostG += kk.constraints
+            cf.constraints = list(cf.ghostG)
+            inputs.append(cf)
+        conds = [TC(VARSETS[c.choose([True] * 4, f"cond{j}-variables")], name=f"cond{j}") for j in range(3)]
+        for cond in conds:
+            if not cond.variables:
+                # recorded finding: a constraint without variables (here: a merge condition that is the constant False) has no child to live
+                # in; the composite keeps a concrete False in its _unsat flag only, and merge loses it
+                c.known("rtc:composite/unsat-flag-lost", cond.table == 0)
+        if not c.path_feasible():
+            raise PathEnd()
+        want = z3.BitVecVal(0, NA)
+        for cf, cond in zip(inputs, conds):
+            want = want | (cond.table & conj(cf.ghostG))
+        try:
+            ok, merged = inputs[0].merge(inputs[1:], conds)
+        except (PathEnd, Undecided):
+            raise
+        except Exception as exn:  # noqa
+            import traceback
+            c.fail(label + "/raises", f"{type(exn).__name__}: {exn} :: {traceback.format_exc()[-500:]}", kind="raises")
+            return "raised"
+        merged.ghostG = None
+        kids = []
+        for k in merged._solvers.values():
+            if not any(k is x for x in kids):
+                kids.append(k)
+        got = conj([x for k in kids for x in k.constraints])
+        c.check(label + "/model-set", got == want, "the merged composite's children do not have the models OR_i(cond_i and input_i)")
+        c.check(label + "/constraints-list", conj(merged.constraints) == want, "merged.constraints does not have the models OR_i(cond_i and input_i)")
+        for v, k in merged._solvers.items():
+            c.check(label + "/R1-child-mentions-its-variable", v in k.variables, f"_solvers[{v!r}] does not mention {v!r}", kind="invariant")
+        for k in kids:
+            for v in k.variables:
+                c.check(label + "/R1-variables-map-to-their-child", merged._solvers.get(v) is k, f"variable {v!r} of a stored child maps to another child", kind="invariant")
+            if k not in merged._unchecked_solvers:
+                c.check(label + "/R4-checked-children-satisfiable", conj(k.constraints) != 0,
+                        f"the merged composite holds {k} without marking it unchecked although nobody has checked it: satisfiable() will not look at it", kind="invariant")
+            if k.frozen:
+                c.check(label + "/R3-shared-children-not-owned", k not in merged._owned_solvers, "the merged composite owns (would write in place) a child that the inputs share", kind="invariant")
+        for k, _ in base:
+            c.check(label + "/R3-copy-on-write", not k.mutated_while_frozen, f"the ancestor's child {k} was extended in place", kind="invariant")
+        return f"merged:{len(kids)}"
+
+    return explore(body, dict(_opts(tier), replay=replay_merge))
+
+
+def replay_merge(failure=None):
+    """native: a composite whose child over a is unsatisfiable but was never checked is branched twice; the branches diverge on b and are merged"""
+    import claripy
+    a, b = claripy.BVS("kf_merge_a", 4, explicit_name=True), claripy.BVS("kf_merge_b", 4, explicit_name=True)
+    s = claripy.SolverComposite()
+    s.add(claripy.ULT(a, 3))
+    s.add(claripy.UGT(a, 5))
+    s1, s2 = s.branch(), s.branch()
+    s1.add(b == 1)
+    s2.add(b == 2)
+    _, m = s1.merge([s2], [b == 1, b == 2])
+    ref = claripy.Solver()
+    ref.add(list(m.constraints))
+    got, want = m.satisfiable(), ref.satisfiable()
+    return {"reproduced": got != want, "text": f"SolverComposite: add(a <u 3); add(a >u 5) [never queried]; two branches add b == 1 / b == 2; merge: merged.satisfiable() = {got}, "
+            f"a plain Solver over merged.constraints {m.constraints!r}: {want}"}
